@@ -36,7 +36,7 @@ CHECKER = 'lake build KatdalModel.Props.C10 kd_c10 && lake env lean <#print axio
 
 # ------------------------------------------------------------------ value alphabets (8 codes each)
 
-WRAPPED = ('tuple', 'arr', 'arrs', 'arrd', 'list', 'wstr')
+WRAPPED = ('tuple', 'arr', 'arrs', 'arrd', 'list', 'wstr', 'wmix')
 _STR = ['slew', 'track', 'stop', 'scan', 'A', 'B', 'nd_on', '']
 ALPHA = {
     'str': list(_STR),
@@ -52,6 +52,10 @@ ALPHA = {
     'arrd': [np.array([i, 2 * i + 1]) for i in range(8)],
     'list': [[i, 'x%d' % i] for i in range(8)],
     'wstr': ['w' + s for s in _STR],
+    # wrapped Python sequences that numpy cannot turn into a regular array, or turns into equal arrays although they
+    # are different values: ragged nestings, mixed element types
+    'wmix': [(('m000', 'm001'), ('m002',)), (('m000',), ('m001', 'm002')), (1, 'x'), ('1', 'x'), (1, 'y'),
+             ((1, 2), (3,)), ((1,), (2, 3)), (1.0, 'x', None)],
 }
 
 
@@ -135,7 +139,7 @@ def gen_case(rng, stream='s2c'):
     elif mode < 0.28:                                # nothing inside
         ts = [t for t in ts if t <= lo or t > ends[-1]]
     ts.sort()
-    alpha = rng.choice(['str', 'str', 'str', 'int', 'bool', 'tuple', 'arr', 'arrs', 'arrd', 'list', 'wstr'])
+    alpha = rng.choice(['str', 'str', 'str', 'int', 'bool', 'tuple', 'arr', 'arrs', 'arrd', 'list', 'wstr', 'wmix'])
     ncodes = len(ALPHA[alpha])
     k = min(ncodes, rng.randint(2, 4))
     codes = rng.sample(range(ncodes), k)
